@@ -20,7 +20,7 @@ RULE = (
     "non-trivial = grid with >=2 face sizes (partitioning and padding matter); distinct = (mesh, face order, data, lead, reduction, destination)"
 )
 ASSUMPTIONS = [
-    "grids built by Grid.from_topology from standard-form tables; node dimension is the last dimension of the data",
+    "grids built by Grid.from_topology from standard-form tables",
     "reference = numpy's reduction applied separately to each element's own corner values (float results compared at 1e-12)",
 ]
 BOUNDS = {
